@@ -394,6 +394,6 @@ def from_xml(xml):
             n = N(tag, [conv(k) for k in kids])
         else:
             n = N(tag, text=e.text or "")
-        n.attrs = dict(e.attrib)
+        n.attrs = {(("xml:" + k.split("}")[-1]) if k.startswith("{http://www.w3.org/XML/1998/namespace}") else k): v for k, v in e.attrib.items()}
         return n
     return conv(ET.fromstring(xml))
